@@ -114,6 +114,7 @@ let exec toks =
   | "shiftinv" -> s_fields (proj_shiftinv c (List.tl (nums ())))
   | "perm5" -> s_guarded (proj_perm5 c (nums ()))
   | "hrself" -> s_fields (proj_hrself c (List.tl (nums ())))
+  | "vsame" -> s_fields (proj_vsame c (List.tl (nums ())))
   | "relabel" -> s_guarded (proj_relabel c (List.tl (nums ())))
   | "chain7" | "chain7s" -> s_guarded (proj_chain7 c (nums ()))
   | "rankp" ->
